@@ -208,6 +208,9 @@ func ruleE1(c *Ctx) {
 				case ssa.CallInstruction:
 					for _, a := range x.Common().Args {
 						if g, ok := a.(*ssa.Global); ok && g.Pkg != nil && strings.HasPrefix(g.Pkg.Pkg.Path(), modPath) {
+							if isSyncPrimitive(g.Type()) {
+								continue // a lock carries no data from one assembly to the next
+							}
 							ws = append(ws, w{g, f, in, "address passed to " + calleeOrDyn(x.Common())})
 						}
 					}
@@ -668,4 +671,15 @@ func hasMembershipTest(f *ssa.Function, fld string) bool {
 
 func sortFuncs(fs []*ssa.Function) {
 	sort.Slice(fs, func(i, j int) bool { return fs[i].String() < fs[j].String() })
+}
+
+// isSyncPrimitive: *sync.Mutex / *sync.RWMutex (the lock word is not assembler state).
+func isSyncPrimitive(t types.Type) bool {
+	if pt, ok := t.Underlying().(*types.Pointer); ok {
+		t = pt.Elem()
+	}
+	if n, ok := t.(*types.Named); ok && n.Obj().Pkg() != nil && n.Obj().Pkg().Path() == "sync" {
+		return n.Obj().Name() == "Mutex" || n.Obj().Name() == "RWMutex"
+	}
+	return false
 }
